@@ -115,6 +115,16 @@ func unpackTar(
 		if fmeta.Type != fs.Type_Dir && prefilterBucket.HasRecord(fmeta) {
 			return api.WareID{}, api.WareID{}, Errorf(rio.ErrWareCorrupt, "corrupt tar: repeated entry %q", fmeta.Name)
 		}
+		// One name cannot be a directory and something else at once (the bucket keeps "a" and "a/" apart; no fileset does).
+		twin := fmeta
+		if fmeta.Type == fs.Type_Dir {
+			twin.Type = fs.Type_File
+		} else {
+			twin.Type = fs.Type_Dir
+		}
+		if prefilterBucket.HasRecord(twin) {
+			return api.WareID{}, api.WareID{}, Errorf(rio.ErrWareCorrupt, "corrupt tar: entry %q appears both as a directory and as something else", fmeta.Name)
+		}
 
 		// Infer parents, if necessary.  The tar format allows implicit parent dirs.
 		//
@@ -127,6 +137,10 @@ func unpackTar(
 			// If we already initialized this parent, superb; move along.
 			if _, exists := dirs[parent]; exists {
 				continue
+			}
+			// A parent that an earlier entry supplied as a file (or link, or device) is no place for children.
+			if prefilterBucket.HasRecord(fs.Metadata{Name: parent, Type: fs.Type_File}) {
+				return api.WareID{}, api.WareID{}, Errorf(rio.ErrWareCorrupt, "corrupt tar: entry %q lies below %q, which is not a directory", fmeta.Name, parent)
 			}
 			// If we're missing a dir, conjure a node with defaulted values.
 			log.DirectoryInferred(mon, parent, fmeta.Name)
